@@ -347,6 +347,53 @@ def rule_e(ctx, fn):
     ctx.ob("C06.e-view-symmetries-need-divisible-views", fn.qn + "(" + fn.sig[:40] + ")", "180-degree-symmetry", not bad180 and bool(exits), fn.where(), "num_views %% 2 != 0 implies the 180-degree view symmetry is off at every exit" if not bad180 else "constructor can finish with an odd number of views and the 180-degree view symmetry still on: view (num_views+1)/2 is then in no subset")
 
 
+def schedule_consumer_units():
+    """every translation unit of the library that mentions the schedule accessor (a textual pre-filter only decides which units are
+    parsed; the rule itself works on resolved callees)"""
+    import subprocess
+
+    from engine import compdb
+
+    out = subprocess.run(["grep", "-rl", "--include=*.cxx", "--include=*.h", "--include=*.inl", "--include=*.txx", "get_subset_num", compdb.REPO + "/src"], capture_output=True, text=True).stdout.split()
+    units = set(compdb.all_units())
+    hits = sorted(f for f in out if f in units and "/swig/" not in f and "/test/" not in f and "/recon_test/" not in f)
+    return hits
+
+
+def rule_f_schedule_consumed_once(ctx, units):
+    """get_subset_num() is not a pure accessor: with a randomised order, the call at the first sub-iteration of an iteration draws a
+    new permutation.  Every subset is used once per iteration only if the schedule is consulted exactly once per sub-iteration: one
+    call in each update_estimate implementation (outside any loop) and no call anywhere else."""
+    n = 0
+    impure = None
+    for u in units:
+        for f in u.functions:
+            if f.qn == "stir::IterativeReconstruction::get_subset_num" and f.body is not None and not f.is_dependent:
+                impure = any(r.startswith("this.") for m in f.walk() for r in {root_of_lvalue(e) for e in written_lvalues(m)}) or any((c.callee or "").endswith("randomly_permute_subset_order") for c in f.calls())
+    ctx.stats["get_subset_num_changes_state"] = impure
+    seen = set()
+    for u in units:
+        for f in u.functions:
+            if f.body is None or f.is_dependent or not f.file.startswith("/repo/src") or f.qn == "stir::IterativeReconstruction::get_subset_num":
+                continue
+            k = (f.file, f.line, f.qn)
+            if k in seen:
+                continue
+            seen.add(k)
+            calls = [c for c in f.calls() if (c.callee or "") == "stir::IterativeReconstruction::get_subset_num"]
+            if not calls and f.short != "update_estimate":
+                continue
+            fid = f.qn + "(" + f.sig[:30] + ")"
+            if f.short == "update_estimate":
+                in_loop = [c for c in calls if any(a.k in ("ForStmt", "WhileStmt", "DoStmt", "CXXForRangeStmt") for a in c.ancestors())]
+                ok = (len(calls) == 1 and not in_loop) or (impure is False and len(calls) >= 1)
+                ctx.ob("C06.f-schedule-consulted-once", fid, "one-call-per-sub-iteration", ok, f.where(), "the subset number is drawn exactly once, outside any loop" if ok else "%d get_subset_num() calls (%d inside a loop) in one sub-iteration" % (len(calls), len(in_loop)))
+            else:
+                ctx.ob("C06.f-schedule-consulted-once", fid, "no-call-outside-update", impure is False, calls[0].where(), "get_subset_num() changes no state in the current source, extra calls are harmless" if impure is False else "get_subset_num() is called outside update_estimate: with a randomised order this draws a second permutation in the same iteration, so a subset is used twice and another not at all")
+            n += 1
+    return n
+
+
 def run(ctx):
     ctx.explanation = (
         "Decides: (a) the subset enumeration lists each is_basic (view,segment) of the residue class view = min_view+subset_num mod "
@@ -386,6 +433,15 @@ def run(ctx):
         ctx.fail_broken("anchor DataSymmetriesForBins_PET_CartesianGrid constructor not found")
     else:
         rule_e(ctx, c[0])
+    su = schedule_consumer_units()
+    sreqs = [Request(x, fn=["stir::.*"], files=["/repo/src/.*"]) for x in su]
+    ctx.ex.prefetch(sreqs)
+    sunits = [ctx.ex.get(r) for r in sreqs]
+    ctx.stats["schedule_units"] = [x.replace("/repo/", "") for x in su]
+    if any(x is None for x in sunits):
+        return
+    rule_f_schedule_consumed_once(ctx, sunits)
+    ctx.require_count("C06.f-schedule-consulted-once", 3)
     ctx.require_count("C06.a-residue-class-enumeration", 3)
     ctx.require_count("C06.b-balanced-counts-what-is-processed", 1)
     ctx.require_count("C06.c-one-enumeration", 6)
